@@ -89,7 +89,9 @@ impl Plan {
         let sweep_seeds = sweep_seeds.min(seeds.len());
         let mut layout = Vec::new();
         let mut systematic = 0usize;
-        for s in seeds.iter().take(sweep_seeds) {
+        for (si, s) in seeds.iter().take(sweep_seeds).enumerate() {
+            // thorough: the first (smallest) seed is swept over its first KiB
+            let head = if !quick && si == 0 { 1024 } else { head };
             let offs = region_offsets(s.data.len(), head, tail);
             let mut truncs: Vec<usize> = (0..=s.data.len().min(64)).collect();
             for k in 1..=64usize {
@@ -152,10 +154,10 @@ fn pick_region_offset(rng: &mut Rng, len: usize) -> usize {
     if len == 0 {
         return 0;
     }
-    match rng.below(10) {
-        0..=4 => rng.usize_below(len.min(64)),
-        5 | 6 => rng.usize_below(len.min(256)),
-        7 | 8 => len - 1 - rng.usize_below(len.min(64)),
+    match rng.below(20) {
+        0..=6 => rng.usize_below(len.min(64)),
+        7..=9 => rng.usize_below(len.min(256)),
+        10..=12 => len - 1 - rng.usize_below(len.min(64)),
         _ => rng.usize_below(len),
     }
 }
